@@ -92,3 +92,9 @@ proof('C02', 'Machine-checked for EVERY finite RGB pixel with components of magn
       'encode_shape: the output carries the requested (resolved) config and the input dimensions. Ingredients: (N, native_decide on regenerated constants) forward matrices within 6e-8 of the exact rationals, exact rows of absolute sum <= 1, scale/offset exactly the H.273 integers; '
       '(K) dot-product and FMA rounding analysis over the reals, semantics of round() half-away + saturating as-u16 (round_spec), 1-Lipschitz clamp (quant_err).',
       'Lean 4: rounding-error analysis over the reals (kernel) + evaluated checks of constants (native_decide); correspondence ties the model to the code')
+
+proof('C08', 'Machine-checked for EVERY code triple, standard matrix, range, depth 8..16, storage and FMA mode (C08.roundtrip_exact): decoding a pixel and encoding it again returns the luma code clamped to [16k,235k] (identity for full range) and each chroma code '
+      'clamped to [16k,240k], the only deviation being that a full-range chroma code 0 may come back as 1 (and is proved to come back as 0 or 1). Proof: composition of the C01 bound (3e-6), the forward-row analysis on the computed pixel (row_fwd2), the exact identity '
+      'encodeSpec * decodeSpec = I over the rationals (spec_inverse), so the value entering round() is within 0.26 of the integer expected code at every depth; round_spec/quant_exact then give exact equality; the -0.5 shortcut is shown not to fire for codes >= 1 (shortcut_not_taken). '
+      'Pixel level (1x1 semantics); C11 lifts pixel functions to images of any layout. Evaluated ingredients (native_decide) as in C01/C02.',
+      'Lean 4: composition of the C01/C02 rounding analyses + exact rational inverse + integer rounding lemmas; correspondence ties the model to the code')
